@@ -166,6 +166,18 @@ theorem result_entry {g : MGraph} (hwf : WF g) {r : List (Nat × List Nat)}
   subst this
   exact heq.2.symm.trans (new_order_eq hwf hlen hh').1
 
+/-- a use of a value of `p` by `c` or by a node nested in `c` (both nodes of graph `h`) is a chain
+    of the flat dependency relation: `p -> u -> owner of u's graph -> ... -> c` -/
+theorem lifted_dep_chain {g h : MGraph} (hh : h ∈ allGraphs g) {p c : MNode} (hp : p ∈ h.2)
+    (hc : c ∈ h.2) {u : Ent} (hu : u ∈ entsN h.1 c) (huse : some p.id ∈ u.inputs) :
+    Relation.TransGen (Dep (nodesOf g)) p.id c.id := by
+  have hsubc : entsN h.1 c ⊆ nodesOf g := (node_infix hh hc).subset
+  have hpU : entOf h.1 p ∈ nodesOf g := (node_infix hh hp).subset (entOf_mem_entsN _ _)
+  have hdep : Dep (nodesOf g) p.id u.id := ⟨_, hpU, u, hsubc hu, rfl, rfl, Or.inl huse⟩
+  rcases owner_chain (nodesOf g) c h.1 hsubc u hu with rfl | hch
+  · exact Relation.TransGen.single hdep
+  · exact Relation.TransGen.head hdep hch
+
 /-- **C12_respects**: after a successful sort, in every graph `h` of the tree, a node `p` that
     produces a value used by node `c` of the same graph, or by a node `u` nested at any depth
     inside `c` (`u ∈ entsN h.1 c`: the span of `c`), comes before `c`. -/
@@ -176,15 +188,9 @@ theorem C12_respects (g : MGraph) (hwf : WF g) (r : List (Nat × List Nat))
     Before new p.id c.id := by
   rw [result_entry hwf hs hh hnew]
   obtain ⟨hlen, _⟩ := sortModel_some hs
-  have hsubc : entsN h.1 c ⊆ nodesOf g := (node_infix hh hc).subset
   have hpU : entOf h.1 p ∈ nodesOf g := (node_infix hh hp).subset (entOf_mem_entsN _ _)
-  have hcU : entOf h.1 c ∈ nodesOf g := hsubc (entOf_mem_entsN _ _)
-  have huU : u ∈ nodesOf g := hsubc hu
-  have hdep : Dep (nodesOf g) p.id u.id := ⟨_, hpU, u, huU, rfl, rfl, Or.inl huse⟩
-  have hchain : Relation.TransGen (Dep (nodesOf g)) p.id c.id := by
-    rcases owner_chain (nodesOf g) c h.1 hsubc u hu with rfl | hch
-    · exact Relation.TransGen.single hdep
-    · exact Relation.TransGen.head hdep hch
+  have hcU : entOf h.1 c ∈ nodesOf g := (node_infix hh hc).subset (entOf_mem_entsN _ _)
+  have hchain := lifted_dep_chain hh hp hc hu huse
   have hpos := Relation.TransGen.lift (posOf (nodesOf g))
     (fun _ _ h => edge_of_dep hwf.ids h) _ _ hchain
   have hb := C12_kahn_respects _ _ (predsAt_lt (nodesOf g)) hlen hpos
@@ -196,6 +202,29 @@ theorem C12_respects (g : MGraph) (hwf : WF g) (r : List (Nat × List Nat))
 theorem C12_cycle_iff (g : MGraph) (hwf : WF g) :
     sortModel g = none ↔ ∃ a, Relation.TransGen (Dep (nodesOf g)) a a := by
   rw [sortModel_none, C12_kahn_cycle_iff _ _ (predsAt_lt (nodesOf g)), cycle_pos_iff hwf.ids]
+
+/-- the property's own dependency relation inside one graph `h`: `c` (or a node nested in `c`)
+    uses a value produced by `p`, both nodes of `h` -/
+def LiftedDep (h : MGraph) (a b : Nat) : Prop :=
+  ∃ p ∈ h.2, ∃ c ∈ h.2, p.id = a ∧ c.id = b ∧ ∃ u ∈ entsN h.1 c, some a ∈ u.inputs
+
+/-- **C12_cycle_lifted**: if, in some graph of the tree, the property's dependencies ("used by it
+    or by any node nested inside it") contain a cycle, the sort raises.  (The converse for
+    well-scoped trees is not proved here; the oracle checks it on every generated case.) -/
+theorem C12_cycle_lifted (g : MGraph) (hwf : WF g) (h : MGraph) (hh : h ∈ allGraphs g) (x : Nat)
+    (hcyc : Relation.TransGen (LiftedDep h) x x) : sortModel g = none := by
+  rw [C12_cycle_iff g hwf]
+  have hmono : ∀ a b, Relation.TransGen (LiftedDep h) a b →
+      Relation.TransGen (Dep (nodesOf g)) a b := by
+    intro a b hab
+    induction hab with
+    | single hl =>
+      obtain ⟨p, hp, c, hc, rfl, rfl, u, hu, huse⟩ := hl
+      exact lifted_dep_chain hh hp hc hu huse
+    | tail _ hl ih =>
+      obtain ⟨p, hp, c, hc, rfl, rfl, u, hu, huse⟩ := hl
+      exact ih.trans (lifted_dep_chain hh hp hc hu huse)
+  exact ⟨x, hmono x x hcyc⟩
 
 /-- **C12_cycle_no_change**: when the sort raises, the observable node order of every graph is the
     one before the call.  (By construction of the model: the cycle test precedes all re-linking,
@@ -264,6 +293,9 @@ example : WF ex2 := ⟨by decide, by decide⟩
 example : sortModel ex1 = some [(0, [0, 1]), (1, [2])] := by decide
 example : sortModel ex2 = none := by decide
 example : sortEffect ex2 = (true, [(0, [0, 1])]) := by decide
+example : Relation.TransGen (LiftedDep ex2) 0 0 :=
+  Relation.TransGen.tail (Relation.TransGen.single (show LiftedDep ex2 0 1 by unfold LiftedDep; decide))
+    (show LiftedDep ex2 1 0 by unfold LiftedDep; decide)
 example : ∀ c, c < 3 → ∀ p ∈ predsAt (nodesOf ex1) c, p < 3 := predsAt_lt (nodesOf ex1)
 example : (kahn 3 (predsAt (nodesOf ex1))) = [2, 1, 0] := by decide
 example : relink [3, 1, 2] [1, 2, 3] = [1, 2, 3] := by decide
